@@ -946,7 +946,7 @@ def replay(ctx: Ctx, obj: dict):
 
 
 LEVEL = {
-    "text": "Lean 4 theorems over an executable model of dns.resolver.Cache and LRUCache (sentinel ring as a list, explicit clock), for all operation sequences: a lookup never returns an answer at or after its expiration (both caches, from any state); Cache refines a timed map (a lookup returns exactly the most recent put of the key that was not flushed and has not expired, whatever sweeps happened); LRUCache refines a timed map plus a recency list of keys (a lookup returns the timed map's answer iff the key is still in the recency list and unexpired; the list changes only by move-to-front, flush, found-expired, and the tail cut of put / set_max_size); the ring carries every key at most once after every prefix (ring and dict agree); put leaves exactly new :: take (max_size-1) (ring without key), and after every operation of every sequence at most max_size entries are held (set_max_size evicts under the lock), only least-recently-used entries are evicted (stated with ghost last-use stamps: every evicted entry was used strictly earlier than every kept one) and none unless the cache is full; hits/misses equal the number of lookups that returned / did not return an answer; for any number of threads, any programs and any schedule, the lock-protected system is the sequential cache run in lock-acquisition order (state, per-thread results, program order, mutual exclusion) - both in a model where a method body is one step and in a finer one where every statement of every method (statistics reads, the statements of _maybe_clean, unlink / expiry test / link_after, argument evaluation and return outside the lock) is a step of its own, shared accesses are executed whether or not the lock is held, and linearizability is derived from the lock discipline of the code (accesses only between acquire and release), which is shown to be an invariant of every run. The model is tied to the code by a differential correspondence check after every operation (ring dumped through the real prev/next pointers in both directions, real Answer objects, dns.resolver.time rebound) and, for 2-4 real threads under a deterministic scheduler with preemption at every line of every cache method, by a lock-discipline monitor on every access to data, ring pointers, statistics and max_size, and by checking every completed history in acquisition order.",
+    "text": "Lean 4 theorems over an executable model of dns.resolver.Cache and LRUCache (sentinel ring as a list, explicit clock), for all operation sequences: a lookup never returns an answer at or after its expiration (both caches, from any state); Cache refines a timed map (a lookup returns exactly the most recent put of the key that was not flushed and has not expired, whatever sweeps happened); LRUCache refines a timed map plus a recency list of keys (a lookup returns the timed map's answer iff the key is still in the recency list and unexpired; the list changes only by move-to-front, flush, found-expired, and the tail cut of put / set_max_size); the ring carries every key at most once after every prefix (ring and dict agree); put leaves exactly new :: take (max_size-1) (ring without key), and after every operation of every sequence at most max_size entries are held (set_max_size evicts under the lock), only least-recently-used entries are evicted (stated with ghost last-use stamps: every evicted entry was used strictly earlier than every kept one) and none unless the cache is full; hits/misses equal the number of lookups that returned / did not return an answer, and each node's per-key hit count is the number of hits since the key was stored; the prev/next pointers of the sentinel ring, updated by link_after / unlink exactly as coded (and by the make-room, shrink and flush loops following sentinel.prev / gnode.next), represent the list model after every prefix of every sequence (single cycle through the sentinel, prev inverse to next); for any number of threads, any programs and any schedule, the lock-protected system is the sequential cache run in lock-acquisition order (state, per-thread results, program order, mutual exclusion) - both in a model where a method body is one step and in a finer one where every statement of every method (statistics reads, the statements of _maybe_clean, unlink / expiry test / link_after, argument evaluation and return outside the lock) is a step of its own, shared accesses are executed whether or not the lock is held, and linearizability is derived from the lock discipline of the code (accesses only between acquire and release), which is shown to be an invariant of every run. The model is tied to the code by a differential correspondence check after every operation (ring dumped through the real prev/next pointers in both directions, real Answer objects, dns.resolver.time rebound) and, for 2-4 real threads under a deterministic scheduler with preemption at every line of every cache method, by a lock-discipline monitor on every access to data, ring pointers, statistics and max_size, and by checking every completed history in acquisition order.",
     "note": "Trusted: Lean kernel + propext/Classical.choice/Quot.sound; the statements in lean/Props/C17.lean; the correspondence harness, its generators and the scheduler shim; the threading.Lock contract. That the real methods keep the lock discipline assumed of the statement-level codes (codeC / codeL in Model/Cache.lean) is checked by the access monitor on sampled schedules and by the per-method lock probe (tie, not proof); the statement-level codes are tied to the real methods only through the sequential correspondence (each implements stepC / stepL, proved) - sweeps and the eviction loop are one step each. The former set_max_size (no eviction, no lock) is kept only as a regression record (bound_needs_eviction_in_set_max_size).",
     "technique": "Lean 4 proof (invariants by induction over operation sequences, refinement to a timed map, closed form of the eviction loop, small-step lock system) + model-vs-implementation correspondence + deterministic-scheduler concurrency tie",
     "design_ref": "DESIGN.md §7 C17",
